@@ -267,7 +267,8 @@ class PowerManagingActor(Actor):  # pylint: disable=too-many-instance-attributes
                     component_ids,
                     None,
                     self._calculate_shifted_bounds(
-                        self._system_bounds[component_ids], tgt_power_shift
+                        self._system_bounds[component_ids],
+                        self._set_op_power_group.get_target_power(component_ids),
                     ),
                     must_send,
                 )
@@ -282,7 +283,8 @@ class PowerManagingActor(Actor):  # pylint: disable=too-many-instance-attributes
                     component_ids,
                     None,
                     self._calculate_shifted_bounds(
-                        self._system_bounds[component_ids], tgt_power_no_shift
+                        self._system_bounds[component_ids],
+                        self._set_power_group.get_target_power(component_ids),
                     ),
                     must_send,
                 )
@@ -297,10 +299,17 @@ class PowerManagingActor(Actor):  # pylint: disable=too-many-instance-attributes
                 component_ids,
                 None,
                 self._calculate_shifted_bounds(
-                    self._system_bounds[component_ids], tgt_power_no_shift
+                    self._system_bounds[component_ids],
+                    self._set_power_group.get_target_power(component_ids),
                 ),
                 must_send,
             )
+        if tgt_power_shift is None and tgt_power_no_shift is None:
+            return None
+        # `None` from one group only means that its target is unchanged, so the power to
+        # distribute is the sum of the current targets of both groups.
+        tgt_power_shift = self._set_op_power_group.get_target_power(component_ids)
+        tgt_power_no_shift = self._set_power_group.get_target_power(component_ids)
         if tgt_power_shift is not None and tgt_power_no_shift is not None:
             return tgt_power_shift + tgt_power_no_shift
         if tgt_power_shift is not None:
